@@ -49,3 +49,12 @@ package op
 //@   mode real
 //@   ensures [linestring] typeof(g) == geom.LineString ==> result == (len(g.(geom.LineString)) == 0 ? 0 : lenTo(g.(geom.LineString), len(g.(geom.LineString)) - 1))
 //@   modifies nothing
+
+// FixOrientation as seen by encoding/shp (polygonM2geom, polygonZ2geom, polygon2geom): the
+// rings of a polygon are reversed in place or left alone; nothing else is written.
+//@ func FixOrientation
+//@   prop C16
+//@   trusted reversePolygon swaps elements inside one ring of g; orientation/polyInPoly (float geometry deciding WHICH rings are reversed) are not verified
+//@   opt writes=geom.Point,alloc
+//@   requires [polygon] typeof(g) == geom.Polygon
+//@   modifies each(g.(geom.Polygon))
